@@ -275,7 +275,8 @@ class Write(object):
             else:
                 # create containing directory
                 curdir = os.path.dirname(filepath)
-                if not os.path.exists(curdir):
+                # curdir is empty for the current directory
+                if curdir and not os.path.exists(curdir):
                     # race condition is possible if the directory is created
                     # after it was checked for existence. Ignore now.
                     os.makedirs(curdir)
